@@ -39,6 +39,10 @@ import OSq.Model.Passes
   * `mckay_all_named`, `no_identity_mckay` (structural part; the ℝ statement is in `OSq.Proofs.ShapeReal`).
   * `mckay_passthrough` (non-rotations), `mckay_passthrough_native` (anything named `Rz`/`X90`), `mckay_null`.
 
+  Examples (namespace `OSq.ShapeExamples`, toy scalar `Toy` = integers with trivial transcendental functions) run each
+  decomposer inside the kernel on inputs that reach every branch: 3-gate and filtered A-B-A outputs, the 8-gate and the
+  one-CNOT CNOT outputs, the generic and the shortcut McKay outputs, and all pass-through branches.
+
   All three:
   * `decomposer_operands_subset`   every emitted gate's operands lie in the input gate's operands, it has no repeated
         operand and is shape-correct if the input is (input assumed duplicate-free, for the pass-through branches).
@@ -741,7 +745,8 @@ theorem optRz_filter_x90 (atol : α) (q : Int) (axZ : Vec3 α) (θ : α) :
 /-- shape of the generic McKay path: `Rz`s with `atol < |parameter|` and exactly two `X90`, at most five gates -/
 theorem mckayGeneric_shape (atol : α) (q : Int) (axX axZ : Vec3 α) (a : α × α × α) :
     (∀ s ∈ mckayGeneric atol q axX axZ a,
-      s = x90Stmt atol q axX ∨ ∃ θ, s = rotStmt atol "Rz" q axZ θ ∧ atol < absS θ) ∧
+      s = x90Stmt atol q axX ∨
+      ∃ θ, (θ = a.1 ∨ θ = a.2.1 ∨ θ = a.2.2) ∧ s = rotStmt atol "Rz" q axZ θ ∧ atol < absS θ) ∧
     (mckayGeneric atol q axX axZ a).length ≤ 5 ∧
     ((mckayGeneric atol q axX axZ a).filter (fun s => s.name? == some "X90")).length = 2 := by
   unfold mckayGeneric
@@ -754,11 +759,11 @@ theorem mckayGeneric_shape (atol : α) (q : Int) (axX axZ : Vec3 α) (a : α × 
     · intro s hs
       simp only [List.mem_append, List.mem_cons, List.not_mem_nil, or_false] at hs
       rcases hs with (((hs | rfl) | hs) | rfl) | hs
-      · exact .inr ⟨_, mem_optRz hs⟩
+      · exact .inr ⟨_, .inl rfl, mem_optRz hs⟩
       · exact .inl rfl
-      · exact .inr ⟨_, mem_optRz hs⟩
+      · exact .inr ⟨_, .inr (.inl rfl), mem_optRz hs⟩
       · exact .inl rfl
-      · exact .inr ⟨_, mem_optRz hs⟩
+      · exact .inr ⟨_, .inr (.inr rfl), mem_optRz hs⟩
     · have h1 := optRz_length atol q axZ a.1
       have h2 := optRz_length atol q axZ a.2.1
       have h3 := optRz_length atol q axZ a.2.2
@@ -817,7 +822,7 @@ theorem mckay_shape {atol : α} {q : Int} {ax : Vec3 α} {an ph : α} {nm : Opti
     obtain ⟨hm, hl, hc⟩ := mckayGeneric_shape atol q axX axZ (mckayAngles atol ax an)
     refine ⟨?_, hl, Nat.le_of_eq hc⟩
     intro s hs
-    rcases hm s hs with rfl | ⟨θ, rfl, -⟩
+    rcases hm s hs with rfl | ⟨θ, -, rfl, -⟩
     · exact .inr (isRot_x90Stmt ..)
     · exact .inl (isRot_rotStmt ..)
 
@@ -853,21 +858,25 @@ theorem mckay_null (atol : α) (q : Int) (ax : Vec3 α) (an ph : α) (nm : Optio
 
 /-- **no identity, structural part** (every scalar type): each gate emitted for a rotation not named `Rz`/`X90` is
     (a) a gate that passed the identity filter (Z-X-Z shortcut), or (b) an `X90`, or (c) an `Rz(q, θ)` whose
-    *parameter* satisfies the guard `atol < |θ|` (generic path) or is `angle * axis_z` of an input with
-    `¬ |angle| < atol` (rotation about z).  That (b), (c) are not identities needs facts about `normalizeAngle`
+    *parameter* satisfies the guard `atol < |θ|` and is one of the three (normalised) `mckayAngles` (generic path), or
+    is `angle * axis_z` of an input with
+    `¬ |angle| < atol` and `axis_x == 0 and axis_y == 0` (rotation about z).  That (b), (c) are not identities needs facts about `normalizeAngle`
     and `π` that no abstract scalar provides; see `OSq.Proofs.ShapeReal` for `α = ℝ`. -/
 theorem no_identity_mckay {atol : α} {q : Int} {ax : Vec3 α} {an ph : α} {nm : Option (Named α)}
     {out : List (GStmt α)} (h : mckayDecompose atol (.bsr q ax an ph, nm) = .ok out)
     (hn : ¬ (nm.map (·.name) = some "Rz" ∨ nm.map (·.name) = some "X90")) :
     ∀ s ∈ out, s.1.isIdentity atol = false ∨ (∃ axX, s = x90Stmt atol q axX) ∨
-      ∃ axZ θ, s = rotStmt atol "Rz" q axZ θ ∧ (atol < absS θ ∨ (θ = an * ax.2.2 ∧ ¬ absS an < atol)) := by
-  rcases mckay_form h with ⟨hP, -⟩ | ⟨-, ⟨-, rfl⟩ | ⟨hE, ⟨-, axZ, -, rfl⟩ | ⟨-, t1, t2, t3, axX, axZ, -, -, -, h4 | h5⟩⟩⟩
+      ∃ axZ θ, s = rotStmt atol "Rz" q axZ θ ∧
+        ((atol < absS θ ∧ (θ = (mckayAngles atol ax an).1 ∨ θ = (mckayAngles atol ax an).2.1 ∨
+            θ = (mckayAngles atol ax an).2.2)) ∨
+         (θ = an * ax.2.2 ∧ ¬ absS an < atol ∧ (Scalar.decEqB ax.1 zero && Scalar.decEqB ax.2.1 zero) = true)) := by
+  rcases mckay_form h with ⟨hP, -⟩ | ⟨-, ⟨-, rfl⟩ | ⟨hE, ⟨hzf, axZ, -, rfl⟩ | ⟨-, t1, t2, t3, axX, axZ, -, -, -, h4 | h5⟩⟩⟩
   · exact absurd hP hn
   · simp
   · intro s hs
     simp only [List.mem_cons, List.not_mem_nil, or_false] at hs
     subst hs
-    exact .inr (.inr ⟨axZ, _, rfl, .inr ⟨rfl, hE⟩⟩)
+    exact .inr (.inr ⟨axZ, _, rfl, .inr ⟨rfl, hE, hzf⟩⟩)
   · obtain ⟨-, -, rfl⟩ := h4
     intro s hs
     simp only [List.mem_append, List.mem_cons] at hs
@@ -877,9 +886,9 @@ theorem no_identity_mckay {atol : α} {q : Int} {ax : Vec3 α} {an ph : α} {nm 
     · exact .inl (mem_filterOutIdentities.1 hs).2
   · obtain ⟨-, rfl⟩ := h5
     intro s hs
-    rcases (mckayGeneric_shape atol q axX axZ (mckayAngles atol ax an)).1 s hs with rfl | ⟨θ, rfl, hθ⟩
+    rcases (mckayGeneric_shape atol q axX axZ (mckayAngles atol ax an)).1 s hs with rfl | ⟨θ, hwhich, rfl, hθ⟩
     · exact .inr (.inl ⟨axX, rfl⟩)
-    · exact .inr (.inr ⟨axZ, θ, rfl, .inl hθ⟩)
+    · exact .inr (.inr ⟨axZ, θ, rfl, .inl ⟨hθ, hwhich⟩⟩)
 
 /-! ### operands of the emitted gates (used by the pipeline proofs) -/
 
@@ -958,6 +967,175 @@ theorem decomposer_operands_subset (atol : α) (d : Decomposer) (g : Gate α) (n
       exact ops_of_self hd h
 
 end OSq
+
+/-! ### examples (non-vacuity), at a toy scalar -/
+namespace OSq.ShapeExamples
+open OSq
+
+/-- integers with trivial "transcendental" functions: enough to *run* the structural part of the model inside the
+    kernel.  No theorem depends on it; it only shows that the hypotheses of the theorems above are satisfiable. -/
+structure Toy where
+  v : Int
+deriving DecidableEq, Inhabited
+
+instance : Scalar Toy where
+  add a b := ⟨a.v + b.v⟩
+  sub a b := ⟨a.v - b.v⟩
+  mul a b := ⟨a.v * b.v⟩
+  div a b := ⟨a.v / b.v⟩
+  neg a := ⟨-a.v⟩
+  lt a b := a.v < b.v
+  le a b := a.v ≤ b.v
+  natCast n := ⟨n⟩
+  pi := ⟨3⟩
+  sin := id
+  cos := id
+  tan := id
+  acos := id
+  sqrt := id
+  atan2 a _ := a
+  floor := id
+  abs a := ⟨a.v.natAbs⟩
+  copysign a _ := a
+  finite _ := true
+  ofScientific m s e := ⟨if s then 0 else m * 10 ^ e⟩
+  decLt a b := inferInstanceAs (Decidable (a.v < b.v))
+  decLe a b := inferInstanceAs (Decidable (a.v ≤ b.v))
+  decEqB a b := a.v == b.v
+
+def toyAxis : Nat → Vec3 Toy
+  | 0 => (⟨1⟩, ⟨0⟩, ⟨0⟩)
+  | 1 => (⟨0⟩, ⟨1⟩, ⟨0⟩)
+  | _ => (⟨0⟩, ⟨0⟩, ⟨1⟩)
+
+theorem toy_mkAxis (i : Nat) : mkAxis (axisLit i : Vec3 Toy) = .ok (toyAxis i) := by
+  match i with
+  | 0 => rfl
+  | 1 => rfl
+  | (n + 2) => exact (rfl : mkAxis ((intToScalar 0, intToScalar 0, intToScalar 1) : Vec3 Toy) = .ok (⟨0⟩, ⟨0⟩, ⟨1⟩))
+
+theorem toy_rot (atol : Toy) (i : Nat) (q : Int) (θ : Toy) :
+    named atol (rotName i) [.qubit q, .float θ] = .ok (rotStmt atol (rotName i) q (toyAxis i) θ) :=
+  (named_rot_iff ..).2 ⟨_, toy_mkAxis i, rfl⟩
+theorem toy_Rx (atol : Toy) (q : Int) (θ : Toy) :
+    named atol "Rx" [.qubit q, .float θ] = .ok (rotStmt atol "Rx" q (toyAxis 0) θ) := toy_rot atol 0 q θ
+theorem toy_Ry (atol : Toy) (q : Int) (θ : Toy) :
+    named atol "Ry" [.qubit q, .float θ] = .ok (rotStmt atol "Ry" q (toyAxis 1) θ) := toy_rot atol 1 q θ
+theorem toy_Rz (atol : Toy) (q : Int) (θ : Toy) :
+    named atol "Rz" [.qubit q, .float θ] = .ok (rotStmt atol "Rz" q (toyAxis 2) θ) := toy_rot atol 2 q θ
+theorem toy_x90 (atol : Toy) (q : Int) : named atol "X90" [.qubit q] = .ok (x90Stmt atol q (toyAxis 0)) :=
+  (named_X90_iff ..).2 ⟨_, toy_mkAxis 0, rfl⟩
+theorem toy_x (atol : Toy) (q : Int) : named atol "X" [.qubit q] = .ok (xStmt atol q (toyAxis 0)) :=
+  (named_X_iff ..).2 ⟨_, toy_mkAxis 0, rfl⟩
+theorem toy_cnot (atol : Toy) (c t : Int) (h : c ≠ t) :
+    named atol "CNOT" [.qubit c, .qubit t] = .ok (cnotStmt atol c t (toyAxis 0)) :=
+  (named_CNOT_iff ..).2 ⟨_, toy_mkAxis 0, h, rfl⟩
+
+/-- `named_CNOT_iff`: `CNOT(c, c)` raises -/
+example (atol : Toy) (c : Int) (g : GStmt Toy) : named atol "CNOT" [.qubit c, .qubit c] ≠ .ok g := by
+  intro h; obtain ⟨_, _, hne, _⟩ := (named_CNOT_iff ..).1 h; exact hne rfl
+
+/-- names of the emitted gates, `none` on failure -/
+def names (r : Except Err (List (GStmt Toy))) : Option (List (Option String)) :=
+  r.toOption.map (List.map GStmt.name?)
+
+theorem of_names {r : Except Err (List (GStmt Toy))} {l : List (Option String)} (h : names r = some l) :
+    ∃ out, r = .ok out ∧ out.map GStmt.name? = l := by
+  cases r with
+  | error e => simp [names, Except.toOption] at h
+  | ok out => exact ⟨out, rfl, by simpa [names, Except.toOption] using h⟩
+
+/-- `aba_shape` is not vacuous: a Z-Y-Z decomposition with all three members … -/
+theorem toy_aba3 : names (abaDecompose (⟨0⟩:Toy) .ZYZ (.bsr 0 (⟨0⟩,⟨1⟩,⟨0⟩) ⟨1⟩ ⟨0⟩, none)) =
+    some [some "Rz", some "Ry", some "Rz"] := by
+  simp only [abaDecompose, toy_rot, bind, Except.bind, pure, Except.pure]
+  rfl
+example : ∃ out, abaDecompose (⟨0⟩:Toy) .ZYZ (.bsr 0 (⟨0⟩,⟨1⟩,⟨0⟩) ⟨1⟩ ⟨0⟩, none) = .ok out ∧
+    out.map GStmt.name? = [some "Rz", some "Ry", some "Rz"] ∧ out.length ≤ 3 ∧
+    ∀ s ∈ out, s.1.isIdentity (⟨0⟩:Toy) = false := by
+  obtain ⟨out, h, hn⟩ := of_names toy_aba3
+  exact ⟨out, h, hn, aba_length h, no_identity_aba h⟩
+
+/-- … and one where the identity filter removes two of them -/
+theorem toy_aba1 : names (abaDecompose (⟨1⟩:Toy) .XZX (.bsr 0 (⟨0⟩,⟨1⟩,⟨0⟩) ⟨2⟩ ⟨0⟩, none)) = some [some "Rz"] := by
+  simp only [abaDecompose, toy_rot, bind, Except.bind, pure, Except.pure]
+  rfl
+example : ∃ out, abaDecompose (⟨1⟩:Toy) .XZX (.bsr 0 (⟨0⟩,⟨1⟩,⟨0⟩) ⟨2⟩ ⟨0⟩, none) = .ok out ∧
+    (out.map GStmt.name?).Sublist [some "Rx", some "Rz", some "Rx"] ∧ out.length = 1 := by
+  obtain ⟨out, h, hn⟩ := of_names toy_aba1
+  exact ⟨out, h, aba_names h, by simpa using congrArg List.length hn⟩
+
+/-- `aba_passthrough` on a controlled gate -/
+example : abaDecompose (⟨0⟩:Toy) .XYX (.ctrl 1 (.bsr 0 (⟨0⟩,⟨1⟩,⟨0⟩) ⟨2⟩ ⟨0⟩), none) =
+    .ok [(.ctrl 1 (.bsr 0 (⟨0⟩,⟨1⟩,⟨0⟩) ⟨2⟩ ⟨0⟩), none)] :=
+  aba_passthrough _ _ _ _ (by intro _ _ _ _ h; cases h)
+
+/-- **the CNOT decomposer can emit eight gates** (so `cnot_length` cannot be improved to 7): two-CNOT form, nothing
+    filtered.  (Python agrees: `CNOTDecomposer().decompose(ControlledGate(1, BlochSphereRotation(0, axis=(1, 2, 3),
+    angle=1.0, phase=0.5)))` returns 8 gates.) -/
+theorem toy_cnot8 : names (cnotDecompose (⟨0⟩:Toy) (.ctrl 1 (.bsr 0 (⟨0⟩,⟨0⟩,⟨1⟩) ⟨2⟩ ⟨1⟩), none)) =
+    some [some "Rz", some "CNOT", some "Rz", some "Ry", some "CNOT", some "Ry", some "Rz", some "Rz"] := by
+  simp only [cnotDecompose, toy_x, toy_cnot _ 1 0 (by decide), toy_Ry, toy_Rz, bind, Except.bind, pure, Except.pure]
+  rfl
+example : ∃ out, cnotDecompose (⟨0⟩:Toy) (.ctrl 1 (.bsr 0 (⟨0⟩,⟨0⟩,⟨1⟩) ⟨2⟩ ⟨1⟩), none) = .ok out ∧
+    out.length = 8 ∧ (out.filter (fun s => s.name? == some "CNOT")).length ≤ 2 ∧
+    ∀ s ∈ out, IsCnot 1 0 s ∨ IsRot 0 "Ry" s ∨ IsRot 0 "Rz" s ∨ IsRot 1 "Rz" s := by
+  obtain ⟨out, h, hn⟩ := of_names toy_cnot8
+  exact ⟨out, h, by simpa using congrArg List.length hn, cnot_count h, cnot_elems h⟩
+
+/-- the one-CNOT form, with three members filtered out -/
+theorem toy_cnot3 : names (cnotDecompose (⟨1⟩:Toy) (.ctrl 1 (.bsr 0 (⟨0⟩,⟨1⟩,⟨0⟩) ⟨2⟩ ⟨2⟩), none)) =
+    some [some "Ry", some "CNOT", some "Ry"] := by
+  simp only [cnotDecompose, toy_x, toy_cnot _ 1 0 (by decide), toy_Ry, toy_Rz, bind, Except.bind, pure, Except.pure]
+  rfl
+example : ∃ out, cnotDecompose (⟨1⟩:Toy) (.ctrl 1 (.bsr 0 (⟨0⟩,⟨1⟩,⟨0⟩) ⟨2⟩ ⟨2⟩), none) = .ok out ∧
+    out.length = 3 ∧ ∀ s ∈ out, s.1.isIdentity (⟨1⟩:Toy) = false := by
+  obtain ⟨out, h, hn⟩ := of_names toy_cnot3
+  exact ⟨out, h, by simpa using congrArg List.length hn, no_identity_cnot h⟩
+
+/-- `cnot_passthrough` on a doubly-controlled gate -/
+example : cnotDecompose (⟨0⟩:Toy) (.ctrl 2 (.ctrl 1 (.bsr 0 (⟨0⟩,⟨1⟩,⟨0⟩) ⟨2⟩ ⟨0⟩)), none) =
+    .ok [(.ctrl 2 (.ctrl 1 (.bsr 0 (⟨0⟩,⟨1⟩,⟨0⟩) ⟨2⟩ ⟨0⟩)), none)] :=
+  cnot_passthrough _ _ _ (by intro _ _ _ _ _ h; cases h)
+
+/-- McKay, generic path: `X90 · Rz · X90 · Rz` (the first `Rz` is dropped by its guard) -/
+theorem toy_mckay4 : names (mckayDecompose (⟨0⟩:Toy) (.bsr 0 (⟨0⟩,⟨1⟩,⟨0⟩) ⟨1⟩ ⟨0⟩, none)) =
+    some [some "X90", some "Rz", some "X90", some "Rz"] := by
+  simp only [mckayDecompose_bsr_eq, abaDecompose, mckayTail, mckayOpt, toy_rot, toy_x90, toy_Rz, bind, Except.bind,
+    pure, Except.pure]
+  rfl
+example : ∃ out, mckayDecompose (⟨0⟩:Toy) (.bsr 0 (⟨0⟩,⟨1⟩,⟨0⟩) ⟨1⟩ ⟨0⟩, none) = .ok out ∧ out.length = 4 ∧
+    (∀ s ∈ out, IsRot 0 "Rz" s ∨ IsRot 0 "X90" s) ∧ (out.filter (fun s => s.name? == some "X90")).length ≤ 2 := by
+  obtain ⟨out, h, hn⟩ := of_names toy_mckay4
+  exact ⟨out, h, by simpa using congrArg List.length hn, (mckay_shape h).1, (mckay_shape h).2.2⟩
+
+/-- McKay, Z-X-Z shortcut: the `Rx` of the Z-X-Z decomposition is replaced by `X90`; one `Rz` was filtered out -/
+theorem toy_mckay2 : names (mckayDecompose (⟨3⟩:Toy) (.bsr 0 (⟨1⟩,⟨0⟩,⟨0⟩) ⟨3⟩ ⟨0⟩, none)) =
+    some [some "Rz", some "X90"] := by
+  simp only [mckayDecompose_bsr_eq, abaDecompose, mckayTail, mckayOpt, toy_rot, toy_x90, toy_Rz, bind, Except.bind,
+    pure, Except.pure]
+  rfl
+example : ∃ out, mckayDecompose (⟨3⟩:Toy) (.bsr 0 (⟨1⟩,⟨0⟩,⟨0⟩) ⟨3⟩ ⟨0⟩, none) = .ok out ∧ out.length = 2 ∧
+    ∀ s ∈ out, IsRot 0 "Rz" s ∨ IsRot 0 "X90" s := by
+  obtain ⟨out, h, hn⟩ := of_names toy_mckay2
+  exact ⟨out, h, by simpa using congrArg List.length hn, (mckay_shape h).1⟩
+
+/-- `mckay_passthrough_native`, `mckay_null` -/
+example (g : Gate Toy) (args : List (Arg Toy)) :
+    mckayDecompose (⟨0⟩:Toy) (g, some ⟨"X90", args⟩) = .ok [(g, some ⟨"X90", args⟩)] :=
+  mckay_passthrough_native _ _ _ (.inr rfl)
+example : mckayDecompose (⟨1⟩:Toy) (.bsr 0 (⟨0⟩,⟨1⟩,⟨0⟩) ⟨0⟩ ⟨0⟩, none) = .ok [] :=
+  mckay_null _ _ _ _ _ _ (by simp) (by decide)
+
+/-- `decomposer_operands_subset` on the eight-gate CNOT decomposition -/
+example : ∃ out, Decomposer.cnot.run (⟨0⟩:Toy) (.ctrl 1 (.bsr 0 (⟨0⟩,⟨0⟩,⟨1⟩) ⟨2⟩ ⟨1⟩), none) = .ok out ∧
+    out.length = 8 ∧ ∀ s ∈ out, (∀ x ∈ s.1.operands, x ∈ [1, 0]) ∧ hasDup s.1.operands = false := by
+  obtain ⟨out, h, hn⟩ := of_names toy_cnot8
+  have h' : Decomposer.cnot.run (⟨0⟩:Toy) (.ctrl 1 (.bsr 0 (⟨0⟩,⟨0⟩,⟨1⟩) ⟨2⟩ ⟨1⟩), none) = .ok out := h
+  have key := decomposer_operands_subset _ _ _ _ _ (by decide) h'
+  exact ⟨out, h', by simpa using congrArg List.length hn, fun s hs => ⟨(key s hs).1, (key s hs).2.1⟩⟩
+
+end OSq.ShapeExamples
 
 #print axioms OSq.named_rot_iff
 #print axioms OSq.named_X90_iff
